@@ -13,12 +13,16 @@
    in sibling selections and sibling client fields, the same client field used twice with different arguments,
    interface and union positions with asX refinements, nested object arguments, a client pointer, imperatively
    loaded and loadable boundaries.
+   variables inside object arguments (reached by a literal / a variable of the parent; an object literal with variables
+   passed to a client field).
    Not generated (the pinned compiler panics — reported as C08 findings): an entrypoint variable used as a client
-   field argument inside an asX refinement; an object literal containing a variable as a client field argument. *)
+   field argument inside an asX refinement; a client field parameter of a recursive input object type. *)
 EXTENDS IsoProgram
 
 CONSTANTS MaxCard, MaxUses, CardChoice, HomeChoice,
-          Mutations,    \* subset of {0, 1}; 1: the program also has a Mutation entrypoint (objects without id: parent-path store keys)
+          Mutations,    \* subset of {0, 1, 2}; 1: the program also has a Mutation entrypoint (objects without id: parent-path
+                        \* store keys); 2: a Mutation entrypoint that passes an object literal with variables to a client field;
+                        \* 3: a Mutation entrypoint that selects an object WITHOUT id with an EMPTY selection set
           Defaults      \* subset of {0, 1}; 1: Card declares $u with a default value and some uses omit it
 
 N == Var("n")
@@ -72,7 +76,9 @@ HomeOptions(cs, dflt) ==
      LinkedA("pets", "", << <<"first", IntV("1")>>, <<"filter", ObjV(<< <<"kind", NullV>>, <<"nested", ObjV(<< <<"minWeight", K>> >>)>> >>)>> >>,
              <<ScalarA("Leaf", "", << <<"u", SV>> >>)>>),                                                            \* 6 nested object argument with a variable
      Linked("topPet", <<Linked("owner", <<CardUse("", cs, K, SV, dflt)>>)>>),                                        \* 7 deeper
-     LinkedA("me", "me8", <<>>, <<CardUse("", cs, NullV, NullV, FALSE)>>) >>                                          \* 8 null literals
+     LinkedA("me", "me8", <<>>, <<CardUse("", cs, NullV, NullV, FALSE)>>),                                           \* 8 null literals
+     ScalarA("Lister", "", << <<"x", StrV(<<97, 98>>)>> >>),                                                          \* 9 literal reaching a variable INSIDE an object argument
+     ScalarA("Lister", "l2", << <<"x", SV>> >>) >>                                                                    \* 10 variable reaching it
 
 HomeVars(hs) == (IF UsesVarIn(hs, ID) THEN <<VarDef("id", NonNull(Named("ID")))>> ELSE <<>>)
                 \o (IF UsesVarIn(hs, K) THEN <<VarDef("k", Named("Int"))>> ELSE <<>>)
@@ -92,10 +98,20 @@ Programs ==
                                           <<ScalarA("weight", "", << <<"unit", U>> >>), Scalar("nickname")>>)>> ELSE <<>>)
                \o (IF UsesName(cs, "Mini") THEN <<Field("User", "Mini", <<VarDef("m", Named("Int"))>>,
                                                        <<LinkedA("pets", "", << <<"first", Var("m")>> >>, <<Scalar("id")>>)>>)>> ELSE <<>>)
+               \o (IF UsesName(hs, "Lister") THEN <<Field("Query", "Lister", <<VarDef("x", Named("String"))>>,
+                                                        <<LinkedA("pets", "", << <<"filter", ObjV(<< <<"name", Var("x")>> >>)>> >>, <<Scalar("kind")>>)>>)>> ELSE <<>>)
                \o (IF UsesName(cs, "favPet") THEN <<Pointer("User", "favPet", "Pet", <<Linked("bestPet", <<Scalar("__link")>>)>>)>> ELSE <<>>)
                \o << Component("User", "Card", CardVars(cs, dflt), cs),
                      Component("Query", "Home", HomeVars(hs), hs),
                      Entrypoint("Query", "Home") >>
+               \o (IF mv = 2 THEN << Field("Mutation", "Feeder", <<VarDef("i", NonNull(Named("FeedInput")))>>,
+                                            <<LinkedA("feedPet", "", << <<"input", Var("i")>> >>, <<Scalar("ok")>>)>>),
+                                     Component("Mutation", "DoFeed2", <<VarDef("p", NonNull(Named("ID"))), VarDef("a", Named("Int"))>>,
+                                               <<ScalarA("Feeder", "", << <<"i", ObjV(<< <<"petId", Var("p")>>, <<"amount", Var("a")>> >>)>> >>)>>),
+                                     Entrypoint("Mutation", "DoFeed2") >> ELSE <<>>)
+               \o (IF mv = 3 THEN << Component("Mutation", "DoFeed3", <<VarDef("input", NonNull(Named("FeedInput")))>>,
+                                               <<LinkedA("feedPet", "", << <<"input", Var("input")>> >>, <<>>)>>),
+                                     Entrypoint("Mutation", "DoFeed3") >> ELSE <<>>)
                \o (IF mv = 1 THEN << Component("Mutation", "DoFeed", <<VarDef("input", NonNull(Named("FeedInput")))>>,
                                                <<LinkedA("feedPet", "", << <<"input", Var("input")>> >>,
                                                          <<Scalar("ok"), Linked("pet", <<Scalar("nickname"), Linked("owner", <<Scalar("name")>>)>>)>>)>>),
